@@ -160,6 +160,17 @@ func (u *Unit) runBody(st *State, body []ast.Stmt) {
 		u.entry.assume(t.S)
 		reqTexts = append(reqTexts, c.Text)
 	}
+	// user axioms (`axiom NAME` / `def <closed formula>`), requested with `axioms NAME`
+	for _, n := range strings.Fields(b.Flags["axioms"]) {
+		if ab := g.C.byID["axiom:"+n]; ab != nil {
+			for _, c := range ab.clauses("def") {
+				e := u.specEv(st, u.bodyPos)
+				t := e.evSpec(c.Text)
+				u.defs = append(u.defs, t.S)
+				g.Assumed["axiom "+n+" (definitional property of a ghost predicate): "+c.Text] = true
+			}
+		}
+	}
 	// `assumes` clauses: facts the unit relies on that no caller is asked to establish (reported)
 	for _, c := range b.clauses("assumes") {
 		e := u.specEv(st, u.bodyPos)
@@ -759,7 +770,16 @@ func (u *Unit) finishCase() {
 
 var symRe = regexp.MustCompile(`[A-Za-z0-9_$.]+![0-9]+(p[0-9]*)?`)
 
-func symbolsOf(s string) []string { return symRe.FindAllString(s, -1) }
+func symbolsOf(s string) []string {
+	var out []string
+	for _, x := range symRe.FindAllString(s, -1) {
+		if strings.HasPrefix(x, "q$") {
+			continue // bound variables of quantifiers are not symbols of the state
+		}
+		out = append(out, x)
+	}
+	return out
+}
 
 func symAge(sym string) int {
 	i := strings.LastIndex(sym, "!")
